@@ -74,6 +74,98 @@ ContainsIP4_Res(s) == IP4_Contains(s)        \* [ok, at, len, ip]
 
 ----------------------------------------------------------------------------
 (***************************************************************************)
+(* IP6Prefix / ContainsIP6 (growth; no declarative property).               *)
+(* NOTE: IP6Prefix writes dst BEFORE the final bracket checks that can turn *)
+(* the result into false ("[::1x"), so a rejected text can leave an address *)
+(* in dst; ContainsIP6 hands the same dst to every attempt.  The dst        *)
+(* contents are therefore threaded through: IP6_PrefixD(s, dst) = result    *)
+(* with ip = dst afterwards.                                                *)
+(***************************************************************************)
+Dst6Len == 16
+\* hexDigToI: >= 0 iff c < 128 and c is a hex digit
+HexVal(c) == IF c >= 48 /\ c <= 57 THEN c - 48
+             ELSE IF c >= 65 /\ c <= 70 THEN c - 65 + 10
+             ELSE IF c >= 97 /\ c <= 102 THEN c - 97 + 10 ELSE -1
+Zero8 == <<0, 0, 0, 0, 0, 0, 0, 0>>
+\* locals of IP6Prefix: a1, a2 = addrBuf1/2, two = (addr == &addrBuf2), i, i1, colons, fc = foundColon,
+\* digits, bs/be = bracketSt/End, err
+IP6_Locals(bs) == [a1 |-> Zero8, a2 |-> Zero8, two |-> FALSE, i |-> 0, i1 |-> 0, colons |-> 0, fc |-> FALSE,
+                   digits |-> 0, bs |-> bs, be |-> FALSE, err |-> OK]
+X6(st, o, x) == [st |-> st, o |-> o, x |-> x]      \* x: "loop" = loop left (end or break), "end" = goto end, "ret" = return false, o, Bad
+RECURSIVE IP6_Loop(_, _, _)
+IP6_Loop(buf, o, st) ==
+  IF o >= Len(buf) THEN X6(st, o, "loop")
+  ELSE LET c == B(buf, o) IN
+    IF c = COLON THEN
+      LET cn == st.colons + 1  st1 == [st EXCEPT !.colons = cn] IN
+        IF cn > 7 /\ (cn > 8 \/ (~st.two /\ ~st.fc)) THEN X6([st1 EXCEPT !.err = BADCHAR], o, "end")
+        ELSE IF st.fc THEN                                           \* "::"
+          IF st.two THEN X6(st1, o, "ret")                           \* a second "::"
+          ELSE IP6_Loop(buf, o + 1, [st1 EXCEPT !.i1 = st.i, !.i = 0, !.two = TRUE])
+        ELSE IP6_Loop(buf, o + 1, [st1 EXCEPT !.fc = TRUE, !.i = st.i + 1, !.digits = 0])
+    ELSE IF HexVal(c) >= 0 THEN
+      LET d1 == st.digits + 1  st1 == [st EXCEPT !.fc = FALSE, !.digits = d1] IN
+        IF d1 > 4 THEN X6([st1 EXCEPT !.err = MOREVALUES], o, "loop")     \* break
+        ELSE IF st.two                                               \* addr[i] = addr[i]<<4 + v  (i <= 7 always)
+          THEN IP6_Loop(buf, o + 1, [st1 EXCEPT !.a2[st.i + 1] = (st.a2[st.i + 1] * 16 + HexVal(c)) % 65536])
+          ELSE IP6_Loop(buf, o + 1, [st1 EXCEPT !.a1[st.i + 1] = (st.a1[st.i + 1] * 16 + HexVal(c)) % 65536])
+    ELSE IF st.bs /\ c = RBRACK THEN X6([st EXCEPT !.be = TRUE], o, "loop")   \* break
+    ELSE X6([st EXCEPT !.err = BADCHAR], o, "loop")                  \* break
+
+Dst6Of(a) == SubSeq([k \in 1..16 |-> IF k % 2 = 1 THEN a[(k + 1) \div 2] \div 256 ELSE a[k \div 2] % 256], 1, 16)
+
+IP6_PrefixD(buf, dst) ==
+  LET bs == Len(buf) > 1 /\ B(buf, 0) = LBRACK
+      l  == IP6_Loop(buf, IF bs THEN 1 ELSE 0, IP6_Locals(bs)) IN
+  IF l.x = "ret" THEN P4(FALSE, l.o, BAD, dst)
+  ELSE
+    LET s0  == l.st
+        s1  == IF l.x = "loop" /\ ~s0.fc THEN [s0 EXCEPT !.i = s0.i + 1] ELSE s0      \* if !foundColon { i++ }
+        \* end:
+        bad0 == s1.digits = 0 /\ ~s1.fc
+        res1 == ~bad0
+        err1 == IF bad0 THEN (IF ~s1.be THEN MORE ELSE BAD) ELSE s1.err
+    IN
+    IF ~s1.two /\ (s1.colons < 7 \/ s1.digits = 0) THEN              \* no "::": too few colons / last part empty
+      (IF err1 # OK \/ s1.be THEN P4(FALSE, l.o, BAD, dst) ELSE P4(FALSE, l.o, MORE, dst))
+    ELSE
+      LET \* rest := 8 - i - i1; copy(addrBuf1[i1+rest:], addrBuf2[:i])
+          a   == IF s1.two THEN [k \in 1..8 |-> IF k > 8 - s1.i THEN s1.a2[k - (8 - s1.i)] ELSE s1.a1[k]]
+                 ELSE s1.a1
+          d2  == IF Len(dst) >= 16 THEN Dst6Of(a) \o SubSeq(dst, 17, Len(dst)) ELSE dst
+          o   == l.o IN
+        CASE err1 = OK ->
+               IF s1.bs THEN
+                 (IF s1.be THEN (IF o + 1 < Len(buf) THEN P4(res1, o + 1, MOREVALUES, d2) ELSE P4(res1, o + 1, OK, d2))
+                  ELSE P4(res1, o, MORE, d2))                        \* needs the closing bracket
+               ELSE IF s1.be THEN P4(res1, o, BADCHAR, d2) ELSE P4(res1, o, OK, d2)
+          [] err1 = MOREVALUES ->
+               IF s1.bs /\ ~s1.be THEN P4(FALSE, o, BAD, d2) ELSE P4(res1, o, MOREVALUES, d2)
+          [] err1 = BADCHAR /\ s1.bs -> P4(FALSE, o, BAD, d2)
+          [] OTHER -> P4(res1, o, err1, d2)
+
+IP6_Prefix(s) == IP6_PrefixD(s, ZeroDst(Dst6Len))
+
+RECURSIVE IP6C_Try(_, _, _, _)
+IP6C_Try(buf, o, dOffs, dst) ==
+  IF o >= dOffs THEN C4(FALSE, 0, 0, dst)
+  ELSE LET r == IP6_PrefixD(Slice(buf, o, Len(buf)), dst) IN
+         IF r.ok THEN C4(TRUE, o, r.n, r.ip) ELSE IP6C_Try(buf, o + 1, dOffs, r.ip)
+RECURSIVE IP6C_Outer(_, _, _)
+IP6C_Outer(buf, i, dst) ==
+  IF i >= Len(buf) THEN C4(FALSE, 0, 0, dst)
+  ELSE LET dOffs == IndexByteFrom(buf, i, COLON) IN
+    IF dOffs = -1 THEN C4(FALSE, 0, 0, dst)
+    ELSE LET offs == IF dOffs >= 5 THEN dOffs - 5 ELSE i             \* 4 chars ipv6 segment + optional '['
+             t    == IP6C_Try(buf, offs, dOffs, dst) IN
+           IF t.ok THEN t ELSE IP6C_Outer(buf, dOffs + 1, t.ip)
+IP6_Contains(s) == IP6C_Outer(s, 0, ZeroDst(Dst6Len))
+
+IP6Prefix_Res(s)   == IP6_Prefix(s)          \* [ok, n, err, ip]
+ContainsIP6_Res(s) == IP6_Contains(s)        \* [ok, at, len, ip]
+
+----------------------------------------------------------------------------
+(***************************************************************************)
 (* C20, declaratively.                                                      *)
 (***************************************************************************)
 \* a group: one to three digits, value at most 255
